@@ -390,6 +390,7 @@ type GuardTable struct {
 	byGlob  map[*ssa.Global]guard
 	errs    []string
 	entries int
+	rebound []string
 }
 
 func (m *Models) Guards() *GuardTable {
@@ -404,6 +405,13 @@ func (m *Models) Guards() *GuardTable {
 		}
 		return -1
 	}
+	type unresolvedEntry struct {
+		e   guardSpecEntry
+		g   guard
+		st  *types.Struct // owning struct for a field entry
+		msg string
+	}
+	var unresolved []unresolvedEntry
 	// wildcards first, then specific entries override
 	for pass := 0; pass < 2; pass++ {
 		for _, e := range guardSpec {
@@ -424,7 +432,7 @@ func (m *Models) Guards() *GuardTable {
 			if strings.HasPrefix(e.target, "global ") {
 				gl := p.Global(strings.TrimPrefix(e.target, "global "))
 				if gl == nil {
-					gt.errs = append(gt.errs, fmt.Sprintf("guard table: %s does not exist", e.target))
+					unresolved = append(unresolved, unresolvedEntry{e: e, g: g, msg: fmt.Sprintf("guard table: %s does not exist", e.target)})
 					continue
 				}
 				gt.byGlob[gl] = g
@@ -455,9 +463,101 @@ func (m *Models) Guards() *GuardTable {
 				}
 			}
 			if !found {
-				gt.errs = append(gt.errs, fmt.Sprintf("guard table: %s has no such field", e.target))
+				unresolved = append(unresolved, unresolvedEntry{e: e, g: g, st: st, msg: fmt.Sprintf("guard table: %s has no such field", e.target)})
 			} else {
 				gt.entries++
+			}
+		}
+	}
+	// An entry whose variable no longer exists under that name (a rename) is bound again by inference: an unlisted
+	// variable of the same kind (package-level variable / field of the same struct) whose accesses show the discipline
+	// the entry states — every run-time write under the entry's lock, only atomic accesses, or writes to fresh objects
+	// only. The variable keeps being checked under the entry; only when no such variable exists is the entry an error.
+	if len(unresolved) > 0 {
+		type stats struct {
+			writes     int
+			held       lockSet
+			allAtomic  bool
+			freshOnly  bool
+			accesses   int
+			confinedOK bool
+		}
+		byG := map[*ssa.Global]*stats{}
+		byF := map[*types.Var]*stats{}
+		for _, fn := range p.SrcFuncs() {
+			if fn.Name() == "init" && fn.Parent() == nil {
+				continue
+			}
+			for _, a := range p.Accesses(fn) {
+				var s *stats
+				switch {
+				case a.Field != nil:
+					if _, listed := gt.byField[a.Field]; listed {
+						continue
+					}
+					if byF[a.Field] == nil {
+						byF[a.Field] = &stats{held: ^lockSet(0), allAtomic: true, freshOnly: true}
+					}
+					s = byF[a.Field]
+				case a.Glob != nil:
+					if _, listed := gt.byGlob[a.Glob]; listed || isMutexType(deref(a.Glob.Type())) {
+						continue
+					}
+					if byG[a.Glob] == nil {
+						byG[a.Glob] = &stats{held: ^lockSet(0), allAtomic: true, freshOnly: true}
+					}
+					s = byG[a.Glob]
+				default:
+					continue
+				}
+				s.accesses++
+				if !a.Atomic {
+					s.allAtomic = false
+				}
+				if a.Write {
+					if a.Base != nil && isFresh(a.Base) {
+						continue
+					}
+					s.freshOnly = false
+					s.writes++
+					s.held &= lm.LocallyHeld(a.In)
+				}
+			}
+		}
+		compatible := func(s *stats, g guard) bool {
+			switch g.mode {
+			case gLocked, gWriteLocked:
+				return g.class >= 0 && g.class < 31 && s.writes > 0 && s.held.has(g.class)
+			case gAtomic:
+				return s.accesses > 0 && s.allAtomic
+			case gImmutable:
+				return s.accesses > 0 && s.freshOnly
+			}
+			return false
+		}
+		for _, u := range unresolved {
+			bound := 0
+			if u.st == nil {
+				for gl, s := range byG {
+					if compatible(s, u.g) {
+						gt.byGlob[gl] = u.g
+						bound++
+					}
+				}
+			} else {
+				for i := 0; i < u.st.NumFields(); i++ {
+					f := u.st.Field(i)
+					if s := byF[f]; s != nil && compatible(s, u.g) {
+						gt.byField[f] = u.g
+						bound++
+					}
+				}
+			}
+			if bound == 0 {
+				gt.errs = append(gt.errs, u.msg)
+			} else {
+				gt.entries++
+				gt.rebound = append(gt.rebound, fmt.Sprintf("%s: bound by inference to %d variable(s) with the same discipline", u.e.target, bound))
 			}
 		}
 	}
